@@ -3,6 +3,7 @@ package checks
 import (
 	"fmt"
 	"go/types"
+	"strings"
 
 	"golang.org/x/tools/go/ssa"
 
@@ -55,6 +56,15 @@ func newE3Env(c *Ctx, r *core.Result) *e3Env {
 
 func (env *e3Env) config() absint.Config {
 	cfg := absint.Config{K: env.k, MaxDepth: 14, TableLens: map[string]int64{}, TableRng: map[string][2]int64{}, TableVals: map[string][]int64{}, Dispatch: map[int]*ssa.Function{}, Summaries: map[*ssa.Function]absint.Summary{}}
+	cfg.GhostDefault = func(obj, field string) (absint.AVal, bool) {
+		switch {
+		case obj == "GHOST:cost" && (strings.HasPrefix(field, "M:") || strings.HasPrefix(field, "X:")):
+			return absint.IntV{L: absint.K(-1)}, true // nothing read yet
+		case obj == "GHOST:url" && field == "next":
+			return absint.IntV{L: absint.K(0)}, true // no list entry tried yet
+		}
+		return nil, false
+	}
 	p := env.p
 	if env.disp != nil {
 		cfg.DispVar = env.disp.Var
